@@ -26,12 +26,12 @@ REGISTRY['C01'] = {
     'not_covered': ['end-to-end RP validation, signatures, sync with the publication server, histories', 'Routes::filter and Routes::to_aggregates (iterator chains; assumed), the issuing loop of AspaObjects::create_updates beyond its filter, the loops of BgpSecCertificates::create_updates / create_renewal around their (verified) selection predicates'],
 }
 REGISTRY['C05'] = {
-    'v': ['c05_routes', 'c05_child', 'c05_aspa'],
+    'v': ['c05_routes', 'c05_child', 'c05_aspa', 'c05_bgpsec'],
     'k': [],
-    'level_text': 'Routes::process_updates on the real text: refused exactly when some entry is invalid at its turn (unknown removal; invalid max length, prefix not held, already present with the same comment) -- both directions, for deltas of any length including duplicates inside one delta; an accepted delta returns the specified state and its events replay to it; a refused delta returns only the error. max_length_valid equals the statement definition. AspaDefinitions::process_updates: accepted only if every entry is well-formed (non-empty, no duplicates, customer not a provider) and its customer AS is held and every removal names a customer present at its turn; every refusal has such a reason; an accepted delta is applied entirely (replaying the returned events gives the returned definitions, as provider sets). Child add/update: see c05_child.',
+    'level_text': 'BGPsec router-key definition deltas (whole of BgpSecDefinitions::process_updates): accepted only if every removed key is defined at that point, every added CSR is validly signed and its AS is held; applied entirely (returned definitions == replay of the returned events), every added definition present afterwards. Routes::process_updates on the real text: refused exactly when some entry is invalid at its turn (unknown removal; invalid max length, prefix not held, already present with the same comment) -- both directions, for deltas of any length including duplicates inside one delta; an accepted delta returns the specified state and its events replay to it; a refused delta returns only the error. max_length_valid equals the statement definition. AspaDefinitions::process_updates: accepted only if every entry is well-formed (non-empty, no duplicates, customer not a provider) and its customer AS is held and every removal names a customer present at its turn; every refusal has such a reason; an accepted delta is applied entirely (replaying the returned events gives the returned definitions, as provider sets). Child add/update: see c05_child.',
     'level_note': 'ResourceSet::contains_roa_address / contains_asn uninterpreted (held); ASPA: the two provider-diff iterator chains are replaced by an assumed set-difference function (R14) and AspaDefinition::{apply_update, customer_used_as_provider, contains_duplicate_providers} carry assumed set-level contracts; String equality axiom; HashMap key model for RoaPayloadJsonMapKey; derived Clone assumed value-preserving (R11); CertAuth command layer above is unverified (A8).',
     'design_ref': 'DESIGN.md section 10.4 (as built) and section 5 / C05',
-    'not_covered': ['BGPsec definition deltas', 'provider order inside an ASPA definition (contracts are over provider sets)', 'repository untouched on refusal (follows from no event, A8)'],
+    'not_covered': ['provider order inside an ASPA definition (contracts are over provider sets)', 'repository untouched on refusal (follows from no event, A8)'],
 }
 REGISTRY['C09'] = {
     'v': ['c09_taskqueue', 'c09_scheduler', 'c09_queue', 'c09_events', 'c09_taskname'],
